@@ -375,3 +375,76 @@ Proof.
 Qed.
 Print Assumptions inadmissible_member.
 Print Assumptions inadmissible_rejected.
+
+(* ================= inflated embedded lengths ================= *)
+(* a string member whose length field (1-byte or 4-byte form) announces more than what is left of the input *)
+Theorem inflated_string_member e f tag req prior lo J (four : bool) l r :
+  junk_ok lo tag J -> tag < 256 -> N.of_nat (length r) < l -> l < (if four then 4294967296 else 256) ->
+  let field := (if four then head tSTR4 tag ++ be 4 l else head tSTR1 tag ++ [l]) ++ r in
+  (2 * length (ser_fields J ++ field) + 3 <= f)%nat ->
+  dec_var (S f) e tag req TStr prior (ser_fields J ++ field) = DErr.
+Proof.
+  intros HJ Htag Hl Hl2 field Hf. subst field. rewrite dec_var_scalar by reflexivity.
+  unfold dec_scalar, r_string, with_seek. rewrite (seek_junk J f lo) by assumption.
+  destruct (fuel_sub J _ f Hf) as (f' & -> & _). destruct four; rewrite <- !app_assoc; rewrite seek_first by (reflexivity || assumption);
+    unfold read_string_body.
+  - change (tSTR4 =? tSTR4) with true. cbv iota. rewrite bread_be by (cbn; lia). now rewrite take_str_truncated.
+  - change (tSTR1 =? tSTR4) with false. change (tSTR1 =? tSTR1) with true. cbv iota. cbn [app]. now rewrite take_str_truncated.
+Qed.
+(* a byte-vector member (SimpleList) whose count announces more than what is left *)
+Theorem inflated_bytes_member e f tag req x prior lo J n r :
+  junk_ok lo tag J -> tag < 256 -> is_byte x = true -> (length r < n)%nat -> N.of_nat n < 2147483648 ->
+  let field := head tSIMPLE tag ++ head tBYTE 0 ++ w_int32 (Z.of_nat n) 0 ++ r in
+  (2 * length (ser_fields J ++ field) + 3 <= f)%nat ->
+  dec_var (S f) e tag req (TVec x) prior (ser_fields J ++ field) = DErr.
+Proof.
+  intros HJ Htag Hb Hl Hn field Hf. subst field. rewrite dec_var_vec. rewrite (seek_junk J f lo) by assumption.
+  destruct (fuel_sub J _ f Hf) as (f' & -> & _). rewrite seek_first by (reflexivity || assumption).
+  change (tSIMPLE =? tLIST) with false. change (tSIMPLE =? tSIMPLE) with true. cbv iota. rewrite Hb.
+  unfold skip_to. destruct f as [|f0]; [lia|]. rewrite seek_first by (reflexivity || lia).
+  change (tBYTE =? tBYTE) with true. cbv iota. rewrite read_count_len by assumption.
+  rewrite read_slice_truncated by lia. reflexivity.
+Qed.
+(* a LIST member whose count announces more elements than bytes are left: refused before anything is decoded
+   (the model's DHuge: the generated code allocates first and fails on the first missing element - C05 finding) *)
+Theorem inflated_list_member e f tag req x prior lo J n r :
+  junk_ok lo tag J -> tag < 256 -> (length r < n)%nat -> N.of_nat n < 2147483648 ->
+  let field := head tLIST tag ++ w_int32 (Z.of_nat n) 0 ++ r in
+  (2 * length (ser_fields J ++ field) + 3 <= f)%nat ->
+  dec_var (S f) e tag req (TVec x) prior (ser_fields J ++ field) = DHuge.
+Proof.
+  intros HJ Htag Hl Hn field Hf. subst field. rewrite dec_var_vec. rewrite (seek_junk J f lo) by assumption.
+  destruct (fuel_sub J _ f Hf) as (f' & -> & _). rewrite seek_first by (reflexivity || assumption).
+  change (tLIST =? tLIST) with true. cbv iota. rewrite read_count_len by assumption.
+  destruct (Z.of_nat n <? 0)%Z eqn:E1; [lia|].
+  destruct (Z.of_nat (length r) <? Z.of_nat n)%Z eqn:E2; [reflexivity|lia].
+Qed.
+
+(* struct level: the members before it encoded normally, then a string member whose length exceeds what is left *)
+Theorem inflated_string_rejected e k n sid fds1 fd fds2 vs1 (four : bool) l r :
+  wf_schema k e -> (S k <= 64)%nat -> fields_of e sid = fds1 ++ fd :: fds2 -> fty fd = TStr ->
+  Forall2 (fun fd x => has_type e (fty fd) x) fds1 vs1 ->
+  N.of_nat (length r) < l -> l < (if four then 4294967296 else 256) ->
+  tfin n e (TStruct sid) = true -> (tneed n e (TStruct sid) + k <= 64)%nat ->
+  decode e sid (enc_fields e vs1 fds1 ++ (if four then head tSTR4 (ftag fd) ++ be 4 l else head tSTR1 (ftag fd) ++ [l]) ++ r) = DErr.
+Proof.
+  intros Hwf Hk Hsid Hstr H1 Hl Hl2 Hfin Hn.
+  pose proof (wf_asc k e Hwf sid) as Hasc. rewrite Hsid in Hasc.
+  assert (H256 : ftag fd < 256).
+  { destruct fds1 as [|x a]; cbn [app schema_ascending] in Hasc; [tauto|]. destruct Hasc as [_ Hasc]. apply ascending_app_mid in Hasc. tauto. }
+  apply (struct_member_error e k n sid fds1 fd fds2); try assumption.
+  - intros f' prior Hf'. destruct f' as [|f'']; [lia|]. rewrite Hstr.
+    pose proof (inflated_string_member e f'' (ftag fd) (freq fd) prior None [] four l r (junk_nil None (ftag fd)) H256 Hl Hl2) as H9.
+    cbn [ser_fields app] in H9. apply H9. lia.
+  - intros fd1 Hin. right.
+    assert (Hlt : ftag fd1 < ftag fd).
+    { destruct fds1 as [|x a]; [contradiction|]. cbn [app schema_ascending] in Hasc. destruct Hasc as [_ Hasc].
+      destruct Hin as [->|Hin]; [apply (ascending_all_gt _ _ Hasc); apply in_or_app; right; now left|now apply (ascending_before fd fds2 fd1 a _ Hasc)]. }
+    destruct four.
+    + exists tSTR4, (ftag fd), (be 4 l ++ r). split; [reflexivity|]. split; [assumption|]. split; [now rewrite <- app_assoc|now right].
+    + exists tSTR1, (ftag fd), ([l] ++ r). split; [reflexivity|]. split; [assumption|]. split; [now rewrite <- app_assoc|now right].
+Qed.
+Print Assumptions inflated_string_member.
+Print Assumptions inflated_bytes_member.
+Print Assumptions inflated_list_member.
+Print Assumptions inflated_string_rejected.
